@@ -118,7 +118,17 @@ impl<'a> PGen<'a> {
         let mut parts: Vec<Cell> = vec![];
         let n = 1 + self.rng.usize(4);
         for _ in 0..n {
-            parts.push(self.template_part(&vars, want_valid));
+            let part = self.template_part(&vars, want_valid);
+            // half of the (x ...) parts are spliced into the enclosing sequence, so that an ellipsis also
+            // occurs at the top level of the template and directly before the dot of a dotted template
+            let items: Vec<Cell> = part.iter().cloned().collect();
+            let is_ellipsis_pair = part.is_pair() && !part.is_improper_list() && items.len() >= 2 && matches!(&items[1], Cell::Symbol(s) if *s == self.ellipsis);
+            if is_ellipsis_pair && self.rng.bool() {
+                self.features.insert("template:ellipsis-at-top-level");
+                parts.extend(items);
+            } else {
+                parts.push(part);
+            }
         }
         match self.rng.usize(10) {
             0 => {
@@ -462,7 +472,7 @@ fn reference(t: &Transformer, use_form: &Cell) -> Expansion {
     t.expand(use_form)
 }
 
-const PRIORITY: [&str; 27] = [
+const PRIORITY: [&str; 28] = [
     "invalid:ellipsis-after-non-ellipsis-variable",
     "invalid:ellipsis-after-constant",
     "invalid:variable-without-enough-ellipses",
@@ -482,6 +492,7 @@ const PRIORITY: [&str; 27] = [
     "template:subtemplate-under-ellipsis",
     "template:ellipsis-with-tail",
     "pattern:tail-after-ellipsis",
+    "template:ellipsis-at-top-level",
     "template:ellipsis",
     "pattern:ellipsis",
     "template:variable-twice",
